@@ -2,7 +2,8 @@ import GraafVerif.Driver.Common
 import GraafVerif.Model.Johnson
 import GraafVerif.Spec.Johnson
 /-!
-Driver handler for C10: `johnson_circuits <family> [am verts arcs] => [[circuit] …] | panic`.
+Driver handlers for C10: `johnson_circuits <family> [am verts arcs] => [[circuit] …] | panic` and
+`johnson_repeat <family> <k|clone> [am verts arcs] => ([[circuit] …]) × k | panic` (see `hRepeat`).
 
 * correspondence: the model's `circuits` output, verbatim (the emission order is deterministic);
 * property oracle on the IMPLEMENTATION's output: permutation-equality with the verified naive
@@ -114,9 +115,10 @@ def hCircuits : Handler := fun _ args obs =>
       | _ => some s!"no circuit list returned ({all.length} circuits exist)"
     let group := if fam == "corpus" then "corpus" else if fam.startsWith "all" || fam == "tournament5" || fam == "complete" then "exhaustive-small"
                  else if ["trap-then-close", "cycle-chords", "theta", "flower", "bidirected", "two-blocks",
-                          "ladder", "sparse-hamiltonian"].contains fam then "blocking-families"
+                          "ladder", "sparse-hamiltonian", "big-sparse"].contains fam then "blocking-families"
                  else "shared-families"
-    let nTag := if d.order ≤ 3 then "n1-3" else if d.order ≤ 6 then "n4-6" else if d.order ≤ 9 then "n7-9" else "n10-14"
+    let nTag := if d.order ≤ 3 then "n1-3" else if d.order ≤ 6 then "n4-6" else if d.order ≤ 9 then "n7-9"
+                else if d.order ≤ 14 then "n10-14" else "n15+"
     let tags := (if group == "corpus" then [] else ["gen:" ++ group]) ++ [ nTag, countTag "circuits:" all.length,
                   countTag2 "blocked-skips:" k.skips, countTag2 "cascade-unblocks:" k.cascades,
                   countTag2 "failed-searches:" k.fails ] ++
@@ -124,6 +126,59 @@ def hCircuits : Handler := fun _ args obs =>
     pure (classify obs model propFail (nt := all.length ≥ 2) tags)
   | _ => none
 
-def handlers : List (String × Handler) := [("johnson_circuits", hCircuits)]
+/-- Oracle on one returned vector: defining predicate on every list, no duplicates, nothing of
+`allCircuits` missing. -/
+def oracleOne (g : Graph) (all : List (List Nat)) (call : Nat) (v : V) : Option String :=
+  match v with
+  | V.l cs =>
+    match cs.mapM (V.listOf? V.nat?) with
+    | none => some s!"call {call}: output is not a list of vertex lists"
+    | some cs =>
+      match cs.find? (fun c => !isCanonB g c) with
+      | some c => some s!"call {call}: spurious {V.ofNats c} is not a canonical elementary circuit"
+      | none =>
+        match firstDup cs with
+        | some c => some s!"call {call}: duplicate {V.ofNats c} returned more than once"
+        | none =>
+          match all.find? (fun c => !cs.contains c) with
+          | some c => some s!"call {call}: missing {V.ofNats c} of {all.length} circuits, {cs.length} returned"
+          | none => if cs.length == all.length then none
+                    else some s!"call {call}: count {cs.length} returned, {all.length} exist"
+  | _ => some s!"call {call}: no circuit list returned"
+
+/-- `johnson_repeat <family> <k|clone> desc`: `k` calls of `circuits()` on the same value (`clone`:
+two calls, the second on a clone — the derived `Clone` is structural).  Model: `circuitsRepeat`
+(state threaded through the calls; `Thm/C10.johnson_repeat_statement`: every call returns the
+full enumeration).  Oracle: every returned vector is permutation-equal to `allCircuits`. -/
+def hRepeat : Handler := fun _ args obs =>
+  match args with
+  | [V.a fam, mode, desc] => do
+    let d ← GDesc.parse desc
+    if d.repr != "am" then none
+    if d.verts != List.range d.order then none
+    if !d.arcs.all (fun a => a.1 < d.order && a.2 < d.order && a.1 != a.2) then none
+    let k ← match mode with
+      | V.a "clone" => some 2
+      | m => V.nat? m
+    if k == 0 || k > 8 then none
+    let g := d.graph
+    let a := AM.ofGraph g
+    let model : List V := match circuitsChecked a with
+      | some _ => (circuitsRepeat a k (JState.new a)).map (fun cs => V.l (cs.map V.ofNats))
+      | none => [V.a "panic"]
+    let all := allCircuits g
+    let propFail : Option String :=
+      if obs.length != k then some s!"{obs.length} results for {k} calls ({all.length} circuits exist)"
+      else ((List.range k).zip obs).findSome? (fun p => oracleOne g all (p.1 + 1) p.2)
+    let stale := (circuitsCall a (JState.new a)).blocked.length
+    let nTag := if d.order ≤ 3 then "n1-3" else if d.order ≤ 6 then "n4-6" else if d.order ≤ 9 then "n7-9"
+                else if d.order ≤ 14 then "n10-14" else "n15+"
+    let tags := [ "repeat:" ++ toString mode, nTag, countTag "circuits:" all.length,
+                  "stale-blocked-after-call:" ++ (if stale == 0 then "0" else if stale < 4 then "1-3" else "4+") ]
+    let _ := fam
+    pure (classify obs model propFail (nt := all.length ≥ 1 && stale ≥ 1) tags)
+  | _ => none
+
+def handlers : List (String × Handler) := [("johnson_circuits", hCircuits), ("johnson_repeat", hRepeat)]
 
 end GraafVerif.Driver.H10
